@@ -32,7 +32,7 @@ def fams(tier):
 
 
 def traps(tier):
-    return [t for be in ('memory','file') for t in cachefam.trap_families(be) if 'reader' in t['name'] or 'expiry' in t['name']]
+    return [t for be in ('memory','file') for t in cachefam.trap_families(be) if 'reader' in t['name'] or 'expiry' in t['name'] or 'evict' in t['name']]
 
 
 def run(tier, seed):
